@@ -357,6 +357,40 @@ fn strategy(tier: Tier) -> BoxedStrategy<Case> {
         .boxed()
 }
 
+/// `n` terms (ids 1..=n in a scattered supply order, 1 the root, 118 present), a parent link for
+/// every term, plus failing and accepted calls that name the terms around insertion number 65 536.
+pub fn bulk_history(n: u32, sel: u32) -> Case {
+    let order: Vec<u32> = (0..n).map(|i| 1 + (u64::from(i) * 7919 + u64::from(sel)) as u32 % n).collect::<std::collections::BTreeSet<u32>>().into_iter().collect();
+    // (7919 is prime: a permutation of 1..=n unless n is a multiple of it; the set makes it injective anyway)
+    let mut ids: Vec<u32> = (0..n).map(|i| 1 + ((u64::from(i) * 7919 + u64::from(sel)) % u64::from(n)) as u32).collect();
+    let mut seen = BTreeSet::new();
+    ids.retain(|x| seen.insert(*x));
+    for x in order {
+        if seen.insert(x) {
+            ids.push(x);
+        }
+    }
+    let terms: Vec<(u32, String)> = ids.iter().map(|id| (*id, format!("t{id}"))).collect();
+    let mut parents: Vec<(u32, u32)> = Vec::new();
+    for id in &ids {
+        if *id > 1 {
+            parents.push((id / 2, *id));
+        }
+    }
+    // calls naming the terms inserted around position 65 535 / 65 536 / 65 537 and absent ids
+    let late: Vec<u32> = [65_534usize, 65_535, 65_536, 65_537, ids.len() - 1].iter().filter(|i| **i < ids.len()).map(|i| ids[*i]).collect();
+    let absent = [n + 1, n + 65_536, 10_000_000, 0];
+    let mut ann = Vec::new();
+    for (k, t) in late.iter().enumerate() {
+        parents.push((absent[k % absent.len()], *t));
+        parents.push((*t, absent[(k + 1) % absent.len()]));
+        ann.push(AnnOp { kind: (k % 3) as u8, rec: 10 + k as u32, name: format!("rec{k}"), term: Some(*t) });
+        ann.push(AnnOp { kind: (k % 3) as u8, rec: 10 + k as u32, name: format!("rec{k} (rejected call)"), term: Some(absent[k % absent.len()]) });
+        ann.push(AnnOp { kind: ((k + 1) % 3) as u8, rec: 100 + k as u32, name: format!("only rejected {k}"), term: Some(absent[(k + 2) % absent.len()]) });
+    }
+    Case { terms, parents, ann, version: (2024, 3, 4), version_at: 1, defaults: false }
+}
+
 impl Property for C15 {
     fn id(&self) -> &'static str {
         "C15"
@@ -377,13 +411,31 @@ impl Property for C15 {
         }
     }
     fn required_labels(&self, _tier: Tier) -> Vec<&'static str> {
-        vec!["nontrivial", "failing-add_parent(present parent, absent child)", "failing-add_parent(absent parent, present child)", "failing-annotate", "duplicate-new_term", "absent-id-0", "build_with_defaults", "record-mentioned-only-by-failing-calls", "absent-id-equal-to-a-present-id-mod-2^24"]
+        vec!["nontrivial", "failing-add_parent(present parent, absent child)", "failing-add_parent(absent parent, present child)", "failing-annotate", "duplicate-new_term", "absent-id-0", "build_with_defaults", "record-mentioned-only-by-failing-calls", "absent-id-equal-to-a-present-id-mod-2^24", "bulk>65535-terms"]
     }
     fn run_generated(&self, tier: Tier, seed: u64, n: u64, stats: &mut Stats) -> Option<(Value, Failure)> {
         run_typed(strategy(tier), seed, n, stats, check)
     }
     fn replay(&self, case: &Value, stats: &mut Stats) -> Result<CheckResult, String> {
+        if let Some(b) = case.get("bulk") {
+            // a history with more than 65 535 new_term calls, then accepted and rejected calls that
+            // name early, late and absent terms
+            let v: (u32, u32) = serde_json::from_value(b.clone()).map_err(|e| e.to_string())?;
+            stats.cases += 1;
+            let r = check(&bulk_history(v.0, v.1), stats);
+            if r.is_ok() {
+                stats.label("bulk>65535-terms");
+            }
+            return Ok(r);
+        }
         replay_typed::<Case, _>(case, stats, check)
+    }
+    fn isolated_plans(&self, tier: Tier, seed: u64) -> Vec<Value> {
+        let mut out = vec![json!({"bulk": (65_560u32, (seed % 7) as u32)})];
+        if tier == Tier::Thorough {
+            out.push(json!({"bulk": (131_200u32, (seed % 5) as u32)}));
+        }
+        out
     }
 }
 
